@@ -220,7 +220,7 @@ func c09IndexID(c *cx, rid string, f *eng.Fn, via string) {
 				return true
 			}
 			xs := f.Norm(e.X, &pt)
-			okg := mentions(pt, "builtin.len("+xs+")") || mentions(pt, "rangenext("+xs+")")
+			okg := mentions(pt, "builtin.len("+xs+")") || mentions(pt, "rangenext("+xs+")") || shortCircuitLen(f, e, xs, pt)
 			// x := make([]T, n) / literal with constant length
 			if v := rootLocal(f, e.X); v != nil && !okg {
 				if d := g.UniqueDef(v, pt); d != nil && d.RHS != nil {
@@ -400,4 +400,27 @@ func c09SingleClose(c *cx, f *eng.Fn) {
 		explicit := total - deferred
 		c.r.Check("C09.8", f, "Close of the response from "+id, "a response is closed at most once per path (its Close closes a channel unconditionally): no explicit Close next to a deferred one", d.Node.Pos(), !(deferred > 0 && explicit > 0), "the response is closed explicitly and by a deferred call: the second Close panics (close of closed channel)")
 	}
+}
+
+// shortCircuitLen: the index expression e lies in the right operand of
+// "A || ..." / "A && ..." (one CFG node) where A being false / true establishes
+// a fact about len(xs).
+func shortCircuitLen(f *eng.Fn, e ast.Node, xs string, pt eng.Point) bool {
+	g := f.Graph()
+	var child ast.Node = e
+	for par := g.Parent(e); par != nil; par = g.Parent(par) {
+		if be, ok := par.(*ast.BinaryExpr); ok && be.Y == child && (be.Op == token.LOR || be.Op == token.LAND) {
+			fm := g.Formula(be.X, be.Op == token.LAND, pt)
+			for _, a := range fm.Implied() {
+				if strings.Contains(a.S, "builtin.len("+xs+")") {
+					return true
+				}
+			}
+		}
+		if _, ok := par.(ast.Stmt); ok {
+			break
+		}
+		child = par
+	}
+	return false
 }
